@@ -266,11 +266,16 @@ def explore(model, acc, jobs=None, deadline=None, max_states=None, min_fork=8):
         return {'seed': labels[parent[n][1]], 'events': steps[::-1]}
 
     def work(chunk):
+        # runs in a forked child: `index` is the parent's table as of the fork = every state known so far, so a
+        # successor already known is dropped here instead of being shipped back
         sub = Acc(family)
         out = []
+        mine = set()
         for n in chunk:
             for ev, key, desc in model.expand(descs[n], sub, n):
-                out.append((n, ev, key, desc))
+                if key not in index and key not in mine:
+                    mine.add(key)
+                    out.append((n, ev, key, desc))
         return sub.result(), out
 
     levels = []
